@@ -293,6 +293,9 @@ func (vc *VC) havocRegions(st *State, pc string, regs []region, everything bool,
 	vc.declare(na, "Int")
 	vc.assume(pc, sx(">=", na, pre.alloc))
 	st.alloc = na
+	for _, h := range heaps {
+		vc.heapAlloc[st.heap[h]] = na
+	}
 }
 
 func (vc *VC) havocAll(st *State) {
@@ -862,6 +865,9 @@ func (vc *VC) unfoldTerm(sf *SpecFunc, call SCall, env *Env) string {
 	for i, p := range sf.Params {
 		gt, srt := vc.sortOfTypeExpr(p.T, fenv)
 		a := vc.materialize(vc.eval(call.Args[i], env), env)
+		if a.Sort == "Nil" {
+			a = vc.nilOf(SpecVal{Sort: srt, GoT: gt})
+		}
 		if a.Sort != srt {
 			specFail("unfold %s: arg %d sort %s want %s", sf.Name, i, a.Sort, srt)
 		}
